@@ -301,6 +301,12 @@ func referenceOfEvent(eventJSON []byte, roomVersion RoomVersion) (eventReference
 	if err != nil {
 		return eventReference{}, err
 	}
+	return referenceOfEventForVersion(eventJSON, verImpl)
+}
+
+// referenceOfEventForVersion is referenceOfEvent for callers that already hold the room
+// version implementation (the event constructors, which the version table refers to).
+func referenceOfEventForVersion(eventJSON []byte, verImpl IRoomVersion) (eventReference, error) {
 	redactedJSON, err := verImpl.RedactEventJSON(eventJSON)
 	if err != nil {
 		return eventReference{}, err
@@ -343,11 +349,11 @@ func referenceOfEvent(eventJSON []byte, roomVersion RoomVersion) (eventReference
 		case EventIDFormatV3:
 			encoder = base64.RawURLEncoding.WithPadding(base64.NoPadding)
 		default:
-			return eventReference{}, UnsupportedRoomVersionError{Version: roomVersion}
+			return eventReference{}, UnsupportedRoomVersionError{Version: verImpl.Version()}
 		}
 		eventID = fmt.Sprintf("$%s", encoder.EncodeToString(sha256Hash[:]))
 	default:
-		return eventReference{}, UnsupportedRoomVersionError{Version: roomVersion}
+		return eventReference{}, UnsupportedRoomVersionError{Version: verImpl.Version()}
 	}
 
 	return eventReference{eventID, sha256Hash[:]}, nil
